@@ -161,6 +161,11 @@ def run(ctx):
               86399.9999, 951782399.9996, 1078099199.5):
         for p in range(0, 7):
             insts.append(('UTC', v, p))
+    # fractions around the point where rounding to p digits carries into the next second (and just below it), at every precision
+    for fr in (0.94, 0.949, 0.95, 0.96, 0.994, 0.9951, 0.996, 0.9994, 0.9996, 0.99994, 0.99996, 0.999996, 0.9999996, 0.04, 0.05, 0.051, 0.5):
+        for p in range(0, 7):
+            insts.append(('UTC', 1389787200 + fr, p))
+            insts.append(('UTC', float(rng.randrange(LO, HI)) + fr, p))
     for _ in range(2000 if ctx.thorough else 300):
         insts.append(('UTC', rng.uniform(LO, HI), rng.randrange(0, 7)))
 
@@ -182,6 +187,14 @@ def run(ctx):
         mf, mfrac, mq = o[:6], o[6], o[8]
         if ft is None or ft[0] != mf or ft[1] != mfrac or (z != 'UTC' and ft[2] != z):
             dis(dict(part='render', zone=z, value=repr(v), precision=p, impl=text, model_fields=mf, model_fraction=mfrac))
+            # the model no longer describes the rendering: judge the implementation on its own (render, parse back, compare instants)
+            try:
+                back = timestamp(text).value
+                off = (Fraction(v) - Fraction(back)) if p == 0 else abs(Fraction(back) - Fraction(v))
+                if not (Fraction(-1, 10 ** 6) <= off <= (1 if p == 0 else Fraction(1, 2 * 10 ** p)) + Fraction(1, 10 ** 6)):
+                    bad(dict(zone=z, value=repr(v), precision=p, text=text, parsed_back=repr(back)), 'render then parse returned a different instant')
+            except Exception:
+                pass
             continue
         # parse the implementation's own text back
         try:
